@@ -18,7 +18,7 @@ for d in seeded/${1:-}*/; do
   fi
   ./run.sh $id quick > /tmp/reseed.$$ 2>&1; rc=$?
   nv=$(grep -c '^VIOLATION' /tmp/reseed.$$)
-  echo "$n: check $id exit=$rc violations=$nv $(grep -m1 -A2 '^VIOLATION' /tmp/reseed.$$ | tail -1 | cut -c1-160)" | tee -a $OUT
+  echo "$n: check $id exit=$rc violations=$nv $(grep -m1 -A2 '^VIOLATION' /tmp/reseed.$$ | tail -1 | tr -d '\r' | cut -c1-160)" | tee -a $OUT
   git -C /repo checkout -q -- .
 done
 rm -f /tmp/reseed.$$
